@@ -269,6 +269,10 @@ def check(case, events, out_rows):
     discrete = "actions" in have and len(rows[0]["actions"]) > 0 if rows else False
 
     pred_required = learn in ("on", "ips") or eval_ == "on" or (eval_ == "ips" and not lrn["score"])
+    # a record list naming 'action' / 'probability' asks for the learner's own choice and its probability: with an evaluation
+    # mode set these columns exist only if the learner predicted, so the score() short-cut of eval='ips' does not apply
+    # (only asserted where the environment offers 'actions' to predict from)
+    if eval_ == "ips" and lrn["score"] and "actions" in have and ("action" in record or "probability" in record): pred_required = True
     pred_optional = not pred_required and eval_ == "ips"
 
     # SafeLearner may re-ask the first row of the first batch once to find out the layout of the answer: tolerated
